@@ -78,6 +78,7 @@ struct Frame
     std::vector<PrimRec> primaries;  //!< primaries handed in with this call
     bool after_reset{false};  //!< state was reset/constructed just before
     bool after_reseed{false};  //!< reseed() (track ids restart) just before
+    bool after_kill{false};  //!< kill_active() was called just before this step
     std::uint32_t step{0};  //!< global step index on this stream
     std::uint32_t n_primaries{0};  //!< primaries handed in with this call
     std::array<std::vector<SlotObs>, 3> obs;  //!< per point, per slot
